@@ -12,10 +12,6 @@ From CKC Require Import Base.SortN Proofs.SortFacts Proofs.PokerFacts Proofs.Ran
 From CKC Require Import Proofs.FiveFacts Proofs.HandFacts Proofs.C13.
 Open Scope N_scope.
 
-Definition NAME_FLUSH : N := variant HandRankName_NAMES "Flush".
-Definition NAME_STRAIGHT : N := variant HandRankName_NAMES "Straight".
-Definition NAME_STRAIGHT_FLUSH : N := variant HandRankName_NAMES "StraightFlush".
-
 (* the nine categories map to nine different name variants *)
 Definition CATEGORY_NAMES : list string :=
   ["HighCard"; "Pair"; "TwoPair"; "ThreeOfAKind"; "Straight"; "Flush"; "FullHouse"; "FourOfAKind";
